@@ -552,7 +552,8 @@ class OsFaults:
         self.fired = None
         self.only_in = None
 
-    def begin(self, fail_at=None, errno_=5, only_in=None):
+    def begin(self, fail_at=None, errno_=5, only_in=None, exc=None):
+        self.exc = exc  # exception class to raise instead of OSError(errno_) (e.g. KeyboardInterrupt)
         self.active = True
         self.depth = 0
         self.count = 0
@@ -590,6 +591,8 @@ class OsFaults:
         if self.fail_at is not None and self.count == self.fail_at:
             self.fired = (name, a0)
             self.fail_at = None
+            if getattr(self, "exc", None) is not None:
+                raise self.exc()
             raise OSError(self.errno_, "injected fault", a0 if isinstance(a0, str) else None)
 
     def _wrap(self, mod, attr, name=None):
